@@ -374,3 +374,34 @@ func PackH265(nals [][]byte, o PackOpt) [][]byte {
 func PackAacHbr(au []byte) []byte {
 	return append([]byte{0, 16, byte(len(au) >> 5), byte(len(au)<<3) & 0xf8}, au...)
 }
+
+// PackAacHbrMulti puts several complete AUs (of constant duration) into one packet (RFC 3640 3.3.6).
+func PackAacHbrMulti(aus [][]byte) []byte {
+	n := 16 * len(aus)
+	b := []byte{byte(n >> 8), byte(n)}
+	for _, au := range aus {
+		b = append(b, byte(len(au)>>5), byte(len(au)<<3)&0xf8)
+	}
+	for _, au := range aus {
+		b = append(b, au...)
+	}
+	return b
+}
+
+// PackAacHbrFrag splits one AU into fragments of at most limit payload bytes (RFC 3640 3.2.3.1: every
+// fragment carries one AU-header with the size of the WHOLE AU; same timestamp; marker on the last).
+func PackAacHbrFrag(au []byte, limit int) [][]byte {
+	var out [][]byte
+	k := limit - 4
+	if k < 1 {
+		k = 1
+	}
+	for off := 0; off < len(au); off += k {
+		end := off + k
+		if end > len(au) {
+			end = len(au)
+		}
+		out = append(out, append([]byte{0, 16, byte(len(au) >> 5), byte(len(au)<<3) & 0xf8}, au[off:end]...))
+	}
+	return out
+}
